@@ -87,6 +87,11 @@ def _errors(check: Check):
       if hn is not None:
         heads.append(hn)
     dom = bool(uses) and len(heads) == len(raises) and all(all(ff.cfg.dominates(h, u) for h in heads) for u in uses)
+    # ... for every dataset of the stream, empty ones included: no `continue` may skip the tests
+    every = bool(heads) and all(wmean._on_every_iteration(ff, lp, h) for h in heads)
+    check.ob('R-ERR.every', fi, 'mismatch tests run for every dataset', every,
+             'every dataset of the stream is validated, whatever its size: a dataset skipped before the tests (e.g. an empty client) with a '
+             'different preprocessor or feature set is accepted silently')
     check.ob('R-ERR', fi, 'preprocessor is not first / features != first -> ValueError', kinds == {'preprocessor', 'features'} and dom,
              f'mismatching datasets are rejected (checks present: {sorted(kinds)}) before their examples are used '
              f'(dominates {len(uses)} use sites: {dom})')
